@@ -24,11 +24,13 @@ Theorem c18_frame_exec :
 Proof. exact exec_queue_frame. Qed.
 
 (** SELECT of an index outside 0..15, or of a non-number, is refused and keeps the
-    selection; a valid index changes the issuing connection's selection only. *)
+    selection; a valid index changes the issuing connection's selection only (like every
+    command it is preceded by the lazy expiry of what is due in the selected database). *)
 Theorem c18_select :
   forall now s c dbi a oracle cn,
   zlookup c (s_conns s) = Some cn ->
-  let s0 := if mem_name (bs "SELECT") write_commands then log_aof_in s dbi [FBulk (bs "SELECT"); FBulk a] else s in
+  let s1 := lazy_expire now s dbi (bs "SELECT") [FBulk (bs "SELECT"); FBulk a] in
+  let s0 := if mem_name (bs "SELECT") write_commands then log_aof_in s1 dbi [FBulk (bs "SELECT"); FBulk a] else s1 in
   normal_command now s c dbi [FBulk (bs "SELECT"); FBulk a] oracle =
     match parse_usize a with
     | Some n => if 16 <=? n then (r_err, s0)
